@@ -1227,15 +1227,23 @@ def _parseparam(s: str) -> Generator[str]:
     start = 0
     while s.find(";", start) == start:
         start += 1
-        end = s.find(";", start)
-        ind, diff = start, 0
-        while end > 0:
-            diff += s.count('"', ind, end) - s.count('\\"', ind, end)
-            if diff % 2 == 0:
+        # Find the next semicolon that is not inside a quoted string.
+        # Inside quotes a backslash escapes the following character, so
+        # that "a\\" ends with an escaped backslash and not with an escaped
+        # quote; outside quotes \" does not open a quoted string.
+        end = start
+        in_quotes = False
+        while end < len(s):
+            ch = s[end]
+            if ch == "\\" and (in_quotes or s[end + 1 : end + 2] == '"'):
+                end += 2
+                continue
+            if ch == '"':
+                in_quotes = not in_quotes
+            elif ch == ";" and not in_quotes:
                 break
-            end, ind = ind, s.find(";", end + 1)
-        if end < 0:
-            end = len(s)
+            end += 1
+        end = min(end, len(s))
         f = s[start:end]
         yield f.strip()
         start = end
@@ -1265,7 +1273,13 @@ def _parse_header(line: str) -> tuple[str, dict[str, str]]:
             name = p[:i].strip().lower()
             value = p[i + 1 :].strip()
             params.append((name, native_str(value)))
-    decoded_params = email.utils.decode_params(params)
+    try:
+        decoded_params = email.utils.decode_params(params)
+    except ValueError:
+        # decode_params converts RFC 2231 continuation numbers with int(),
+        # which refuses absurdly long digit strings; such parameters are
+        # left undecoded.
+        decoded_params = list(params)
     decoded_params.pop(0)  # get rid of the dummy again
     pdict = {}
     for name, decoded_value in decoded_params:
